@@ -2159,6 +2159,10 @@ def _future_poll(it, key, raw, args):
         v = cell.v
     if isinstance(v, LeafFuture):
         return v.poll(it)
+    if type(v).__name__ == 'MaybeDone':
+        return _maybe_done_poll(it, key, raw, args)
+    if type(v).__name__ == 'PollFnV':
+        return _poll_fn_poll(it, key, raw, args)
     if isinstance(v, Agg) and isinstance(v.ty, str) and v.ty.startswith('coroutine:'):
         b = it.prog.closures.get('async:' + v.ty[len('coroutine:'):])
         if b is None:
@@ -2171,3 +2175,83 @@ def poll_once(it, co_cell):
     """poll a coroutine value stored in `co_cell`; returns ('ready', value) or ('pending', None)"""
     r = _future_poll(it, None, '', [Agg('Pin', [Cell(Ref(co_cell))]), Opaque('cx')])
     return ('ready', r.fields[0].v) if r.variant == 0 else ('pending', None)
+
+
+# ----- futures-util pieces used by `futures::join!`
+class MaybeDone(Native):
+    ty = 'MaybeDone'
+
+    def __init__(self, fut):
+        self.fut = Cell(fut)
+        self.out = None
+        self.state = 'future'
+
+
+def _as_target(v):
+    """strip Pin / references down to the pointee cell"""
+    while True:
+        if isinstance(v, Agg) and v.ty == 'Pin':
+            v = v.f(0)
+        elif isinstance(v, Ref):
+            if isinstance(v.cell.v, (Ref,)) or (isinstance(v.cell.v, Agg) and v.cell.v.ty == 'Pin'):
+                v = v.cell.v
+            else:
+                return v.cell
+        else:
+            return Cell(v)
+
+
+@model('maybe_done', 'future::maybe_done')
+def _maybe_done(it, key, raw, args):
+    return MaybeDone(args[0])
+
+
+@model('<MaybeDone as Future>::poll')
+def _maybe_done_poll(it, key, raw, args):
+    md = _as_target(args[0]).v
+    if md.state == 'future':
+        r = _future_poll(it, None, '', [Agg('Pin', [Cell(Ref(md.fut))]), args[1]])
+        if r.variant == 1:
+            return Agg('Poll', [], 1)
+        md.out = r.fields[0].v
+        md.state = 'done'
+    elif md.state == 'gone':
+        raise Panic('MaybeDone polled after value taken')
+    return Agg('Poll', [Cell(UNIT)], 0)
+
+
+@model('MaybeDone::take_output')
+def _maybe_done_take(it, key, raw, args):
+    md = _as_target(args[0]).v
+    if md.state != 'done':
+        return none()
+    md.state = 'gone'
+    return some(md.out)
+
+
+class PollFnV(Native):
+    ty = 'PollFn'
+
+    def __init__(self, f):
+        self.f = Cell(f)
+
+
+@model('future::poll_fn', 'poll_fn')
+def _poll_fn(it, key, raw, args):
+    return PollFnV(args[0])
+
+
+@model('<PollFn as Future>::poll')
+def _poll_fn_poll(it, key, raw, args):
+    pf = _as_target(args[0]).v
+    return it.call_value(Ref(pf.f), [args[1]])
+
+
+@model('Poll::is_ready')
+def _poll_is_ready(it, key, raw, args):
+    return deref(args[0]).variant == 0
+
+
+@model('Poll::is_pending')
+def _poll_is_pending(it, key, raw, args):
+    return deref(args[0]).variant == 1
